@@ -196,6 +196,12 @@ class SymEval(object):
     if isinstance(n, ast.UnaryOp):
       return ('call', type(n.op).__name__, self.ev(n.operand, env, fn))
     if isinstance(n, ast.Compare):
+      if len(n.ops) == 1:
+        op = type(n.ops[0]).__name__
+        l, r = self.ev(n.left, env, fn), self.ev(n.comparators[0], env, fn)
+        if op in ('In', 'NotIn'):
+          return ('in' if op == 'In' else 'notin', l, r)
+        return ('cmp', op, l, r)
       return ('opaque', unparse(n))
     if isinstance(n, (ast.ListComp, ast.GeneratorExp, ast.SetComp)):
       e2 = overlay(env)
